@@ -293,4 +293,178 @@ theorem locateAt_node_ok (n : Node) (rest : List String) (t : Target) (h : locat
       simpa [Target.under] using ih (findSub_ok x n.subs (nodeOk_subs n hn) sub hf))
     rest.length rest (Nat.le_refl _) n t h
 
+/-! ## `receive` after the walk, against the specification's table -/
+
+/-- the decision a `Resolved` stands for -/
+def Resolved.decision (C : Consts) : Resolved → Decision
+  | .ok f _ => .routed f
+  | .errResp st => .reject st
+  | .rawErr => .reject C.stPlainError
+
+/-- `routed f` or `reject 400` -/
+def admitOr400 : Option Facts → Decision
+  | some f => .routed f
+  | none => .reject 400
+
+/-- the last two rows of the specification's table, on the request's features -/
+def specTail (t : Target) (verb : Verb) (hdr q act : Option String) (ids : Bool) : Decision :=
+  match methodFor t.node.isCollection t.hasKey verb hdr q.isSome ids act.isSome with
+  | none => .reject 400
+  | some m => admitOr400 (admittedWith t m q act)
+
+/-- the guard for finding "entity presence is not checked for actions": if the request names a
+registered action, the presence of an entity key matches the action's level -/
+def actionLevelOk (t : Target) (act : Option String) : Prop :=
+  ∀ name e, act = some name → t.node.actions.lookup name = some e → e = t.hasKey
+
+@[simp] theorem decision_ok (C : Consts) (f : Facts) (k : Bool) : (Resolved.ok f k).decision C = .routed f := rfl
+@[simp] theorem decision_errResp (C : Consts) (st : Nat) : (Resolved.errResp st).decision C = .reject st := rfl
+@[simp] theorem decision_rawErr (C : Consts) : Resolved.rawErr.decision C = .reject C.stPlainError := rfl
+@[simp] theorem admitOr400_some (f : Facts) : admitOr400 (some f) = .routed f := rfl
+@[simp] theorem admitOr400_none : admitOr400 none = .reject 400 := rfl
+
+theorem getD_ne_empty (q : Option String) (hq : q ≠ some "") : (q.getD "" != "") = q.isSome := by
+  cases q with
+  | none => rfl
+  | some s =>
+    have : s ≠ "" := fun h => hq (by rw [h])
+    simp [this]
+
+/-- collection resource, method `m` settled: entity validation + handler lookup = `admittedWith` -/
+theorem tail_coll (C : Consts) (hC : Tied C) (t : Target) (m : Method) (q act : Option String)
+    (hcoll : t.node.isCollection = true) (hok : nodeOk t.node = true)
+    (hm : m ≠ .unknown)
+    (hlevel : m = .action → actionLevelOk t act) :
+    (finish C t.node t.rpath t.keys t.hasKey (q.getD "") (act.getD "") (checkEntity C m t.hasKey)).decision C =
+      admitOr400 (admittedWith t m q act) := by
+  have hf := nodeOk_finders _ hok
+  have ha := nodeOk_actions _ hok
+  have hu := nodeOk_methods _ hok
+  cases m <;> cases hk : t.hasKey <;>
+    simp [finish, checkEntity, needsEntity, forbidsEntity, lookupHandler, admittedWith, takesKey,
+      hcoll, hk, hC.stNoEntity, hC.stEntityForbidden, hC.stNoFinder, hC.stNoAction,
+      hC.stNoMethod, apply_ite (Resolved.decision C), apply_ite admitOr400] at hm ⊢
+  · -- action, no key
+    cases act with
+    | none => simp [ha]
+    | some name =>
+      cases hl : List.lookup name t.node.actions with
+      | none => simp [hl]
+      | some e =>
+        have := hlevel rfl name e rfl hl
+        simp [hl, this, hk]
+  · -- action, with key
+    cases act with
+    | none => simp [ha]
+    | some name =>
+      cases hl : List.lookup name t.node.actions with
+      | none => simp [hl]
+      | some e =>
+        have := hlevel rfl name e rfl hl
+        simp [hl, this, hk]
+  · -- finder, no key
+    have hf' : ¬ ("" ∈ t.node.finders) := by simpa using hf
+    cases q with
+    | none => simp [hf']
+    | some name => simp [apply_ite admitOr400]
+  · cases q <;> rfl
+
+
+theorem lookupHandler_plain (C : Consts) (hC : Tied C) (t : Target) (k : Bool) (m : Method) (f a : String)
+    (hf : m ≠ .finder) (ha : m ≠ .action) :
+    (lookupHandler C t.node t.rpath t.keys k m f a).decision C =
+      if t.node.methods.contains m then .routed ⟨m, t.rpath, t.keys, none, none⟩ else .reject 400 := by
+  simp [lookupHandler, hf, ha, apply_ite (Resolved.decision C), hC.stNoMethod]
+
+/-- `receive` after the walk = the last two rows of the specification's table, on every request the
+text determines and outside the action-level finding -/
+theorem resolveWith_eq (C : Consts) (hC : Tied C) (t : Target) (verb : Verb) (hdr q act : Option String)
+    (ids : Bool) (hok : nodeOk t.node = true)
+    (hsimple : t.node.isCollection = false → t.hasKey = false)
+    (hh : ∀ h, hdr = some h → methodNamed h ≠ none)
+    (hq : q ≠ some "") (ha : act ≠ some "")
+    (h2 : t.node.isCollection = false → verb = .other → hdr = none)
+    (h3 : t.node.isCollection = true → hdr = none → (verb = .PUT ∨ verb = .DELETE) → t.hasKey = true → ids = false)
+    (hlevel : methodFor t.node.isCollection t.hasKey verb hdr q.isSome ids act.isSome = some .action →
+      actionLevelOk t act) :
+    (resolveWith C t.node t.rpath t.keys t.hasKey verb ((hdr.bind methodNamed).getD .unknown)
+        (q.getD "") (act.getD "") ids).decision C = specTail t verb hdr q act ids := by
+  have hu := nodeOk_methods _ hok
+  have hu' : ¬ (Method.unknown ∈ t.node.methods) := by simpa using hu
+  unfold resolveWith specTail
+  cases hc : t.node.isCollection
+  · -- simple resource
+    have hk := hsimple hc
+    simp only [hk, Bool.false_eq_true, if_false]
+    cases verb
+    · -- GET
+      simp [simpleMethod, methodFor, finish, lookupHandler_plain C hC, admittedWith, hc, hk,
+        apply_ite admitOr400]
+    · -- POST
+      rw [hc] at hlevel
+      cases act with
+      | none =>
+        simp [simpleMethod, methodFor, finish, lookupHandler_plain C hC, admittedWith, hc, hk,
+          apply_ite admitOr400]
+      | some name =>
+        have hne : name ≠ "" := fun h => ha (by rw [h])
+        have hlv := hlevel (by simp [methodFor])
+        simp only [simpleMethod, methodFor, Option.getD_some, bne_iff_ne, ne_eq, hne, not_false_eq_true,
+          if_true, Option.isSome_some, finish, lookupHandler, reduceCtorEq, if_false, admittedWith]
+        cases hl : List.lookup name t.node.actions with
+        | none => simp [hC.stNoAction]
+        | some e =>
+          have := hlv name e rfl hl
+          simp [this, hk]
+    · -- PUT
+      simp [simpleMethod, methodFor, finish, lookupHandler_plain C hC, admittedWith, hc, hk,
+        apply_ite admitOr400]
+    · -- DELETE
+      simp [simpleMethod, methodFor, finish, lookupHandler_plain C hC, admittedWith, hc, hk,
+        apply_ite admitOr400]
+    · -- other verbs: only without a header
+      have := h2 hc rfl
+      subst this
+      simp [simpleMethod, methodFor, finish, lookupHandler_plain C hC, hu']
+  · -- collection-like resource
+    simp only [if_true]
+    rw [hc] at hlevel
+    cases hdr with
+    | some h =>
+      cases hm : methodNamed h with
+      | none => exact absurd hm (hh h rfl)
+      | some m =>
+        have hmu : m ≠ .unknown := fun e => methodNamed_ne_unknown h (e ▸ hm)
+        simp only [Option.bind_some, hm, Option.getD_some, hmu, if_false, methodFor, if_true]
+        exact tail_coll C hC t m q act hc hok hmu (fun e => hlevel (by simp [methodFor, hm, e]))
+    | none =>
+      simp only [Option.bind_none, Option.getD_none, if_true]
+      cases verb
+      · -- GET
+        simp only [inferMethod, getD_ne_empty q hq, methodFor, if_true]
+        cases hk : t.hasKey <;> cases hqs : q.isSome <;> cases ids <;>
+          simp only [Bool.false_eq_true, if_false, if_true] <;>
+          (rw [← hk]; exact tail_coll C hC t _ q act hc hok (by decide) (fun e => by cases e))
+      · -- POST requires the header
+        simp [inferMethod, methodFor, finish, hC.stPostNeedsHeader]
+      · -- PUT
+        cases hk : t.hasKey <;> cases hi : ids
+        · simp [inferMethod, methodFor, finish, checkEntity, needsEntity, hC.stNoEntity]
+        · simp only [inferMethod, methodFor, if_true, Bool.false_eq_true, if_false]
+          rw [← hk]; exact tail_coll C hC t _ q act hc hok (by decide) (fun e => by cases e)
+        · simp only [inferMethod, methodFor, if_true, Bool.false_eq_true, if_false]
+          rw [← hk]; exact tail_coll C hC t _ q act hc hok (by decide) (fun e => by cases e)
+        · exact absurd (h3 hc rfl (Or.inl rfl) hk) (by simp [hi])
+      · -- DELETE
+        cases hk : t.hasKey <;> cases hi : ids
+        · simp [inferMethod, methodFor, finish, checkEntity, needsEntity, hC.stNoEntity]
+        · simp only [inferMethod, methodFor, if_true, Bool.false_eq_true, if_false]
+          rw [← hk]; exact tail_coll C hC t _ q act hc hok (by decide) (fun e => by cases e)
+        · simp only [inferMethod, methodFor, if_true, Bool.false_eq_true, if_false]
+          rw [← hk]; exact tail_coll C hC t _ q act hc hok (by decide) (fun e => by cases e)
+        · exact absurd (h3 hc rfl (Or.inr rfl) hk) (by simp [hi])
+      · -- other verbs name no method
+        simp [inferMethod, methodFor, finish, checkEntity, needsEntity, forbidsEntity,
+          lookupHandler_plain C hC, hu']
+
 end Restli.Routing
